@@ -50,6 +50,8 @@ func main() {
 		for v := 0; v < *variants; v++ {
 			dd := d
 			dd.Variant = v
+			enc.Encode(h.Result{ID: id, Status: "started", Variant: v})
+			out.Flush()
 			res := h.ReplayStore(id, dd, steps)
 			res.Variant = v
 			if res.Status == "end" {
